@@ -37,7 +37,14 @@ def build_board_settings(mods, boards):
     be = mods['bridge_env']
     from bridge_env.data_handler.abstract_classes import BoardSetting
     out = []
-    for b in boards:
+    for i, b in enumerate(boards):
+        if b.get('same_object'):
+            core = {k: v for k, v in b.items() if k != 'same_object'}
+            j = next((j for j in range(i) if {k: v for k, v in boards[j].items()
+                                              if k != 'same_object'} == core), None)
+            if j is not None:
+                out.append(out[j])
+                continue
         hands = {}
         for s in rb.SEATS:
             hands[s] = {be.Card(rb.RANKS.index(c[1]) + 2, be.Suit(rb.SUITS.index(c[0]) + 1))
